@@ -1,7 +1,7 @@
 (* Properties_C15.v -- trace and debug symbols report what is actually executing.
    Models: AsmLayout.v (symbols written by the assembler), SimModel.v (lookupSymbol, the trace line prefix). *)
 From Coq Require Import ZArith List String.
-From HexVerif Require Import WMap Isa SimModel SimProofs SimProofs15 AsmModel AsmLayout AsmSpec AsmStatements AsmLayoutProofs Loader.
+From HexVerif Require Import WMap Isa SimModel SimProofs SimProofs15 AsmModel AsmLayout AsmSpec AsmStatements AsmLayoutProofs AsmSymtabProofs Loader.
 Import ListNotations.
 Local Open Scope Z_scope.
 
@@ -13,8 +13,20 @@ Theorem C15_symtab : forall prog locs out,
 Proof. exact symtab_ok. Qed.
 Print Assumptions C15_symtab.
 
+(* a table that passes the validator -- in particular the table the assembler model writes -- has ascending offsets
+   (the hypothesis `asc` of the lookup theorems below); `asc` is non-strict: adjacent entries may share an offset *)
+Theorem C15_validated_table_ascends : forall prog image syms, check_symtab prog image syms = true -> asc syms.
+Proof. exact check_symtab_asc. Qed.
+Print Assumptions C15_validated_table_ascends.
+
+Theorem C15_model_table_ascends : forall prog locs out,
+  Forall wf_directive prog -> assemble_directives prog locs = AsmModel.Ok out -> small (ao_layout out) -> asc (ao_syms out).
+Proof. intros prog locs out Hwf Ha Hs. exact (check_symtab_asc _ _ _ (symtab_ok prog locs out Hwf Ha Hs)). Qed.
+Print Assumptions C15_model_table_ascends.
+
 (* the trace labels each instruction with the procedure whose code contains it, with its offset from the entry
-   (ascending offsets, distinct names: what the table of a compiled program looks like) *)
+   (ascending offsets: see above; distinct names: X rejects a procedure defined twice; an assembly file that names two
+   FUNC/PROC alike is outside the property's quantifier -- debugInfoMap then keeps the last offset) *)
 Theorem C15_lookup : forall pre n o post pc,
   asc (pre ++ (n, o) :: post) -> NoDup (map fst (pre ++ (n, o) :: post)) ->
   o <= pc -> match post with [] => True | (_, o2) :: _ => pc < o2 end ->
